@@ -392,8 +392,13 @@ class C13(flow.Spec):
             'Find from random live scopes on expressions built from the current tree (absolute, ^-prefixed, single segment, multi segment, '
             'dual/multi name prefixes) and perturbed (truncated, extra/wrong segment, odd bytes) plus arbitrary bytes; '
             'non-trivial = at least 4 edits and one lookup or dump; distinct = distinct command lists')
-    assumptions = ['*Object pointers are modelled as pool positions (objects never move in objPool)',
-                   'the pool holds fewer than 2^32-1 objects', 'absolute lookups assume the object in slot 0 (the root scope) is live']
+    assumptions = ['*Object pointers are modelled as pool positions (objects never move in objPool); a nil pointer is None',
+                   'the pool holds fewer than 2^32-1 objects (legal creation requires room below InvalidIndex)',
+                   'lookup theorems assume the object in slot 0 (the root scope) is live: freeing the root makes absolute lookups panic (model and code agree); '
+                   'C13_history_from_empty shows slot 0 stays live in every history that never frees it',
+                   'the reference resolver fixes the treatment of bytes that cannot start a name (skipped before each segment; 0x2f together with the '
+                   'following count byte); the Go monitor decides only grammatical name strings and too-short names, other byte strings are agreement + no-crash',
+                   'lookups in a scope with two children of the same name return the first one (resolver: find); the Go monitor does not decide such lookups']
     partial = []
 
     def gen_cases(self, rng, tier):
